@@ -10,7 +10,11 @@ Rec == ndJsonDeserialize(IOEnv.TRACE)
 AllDevs == {"prefix_not_ignored_on_binary", "filter_after_index_outer_scope",
             "prefix_not_ignored_on_call"}
 
-PanicKinds == {"panic:filter-first", "panic:filter-on-map"}
+PanicKinds == {"panic:filter-first", "panic:filter-on-map", "panic:function-argument-without-values",
+               "panic:substring-inside-character"}
+
+TabOf(line) == IF "tab" \in DOMAIN line THEN line.tab ELSE <<>>
+Den(line, dev) == DenoteT(line.prog, line.doc, dev, TabOf(line))
 
 \* does the observation equal the denotation?
 Agrees(obs, d) ==
@@ -33,7 +37,7 @@ DevOrder == <<{"prefix_not_ignored_on_binary"}, {"filter_after_index_outer_scope
 RECURSIVE FirstDev(_, _)
 FirstDev(line, j) ==
   IF j > Len(DevOrder) THEN 0
-  ELSE IF Agrees(line.obs, Denote(line.prog, line.doc, DevOrder[j])) THEN j
+  ELSE IF Agrees(line.obs, Den(line, DevOrder[j])) THEN j
   ELSE FirstDev(line, j + 1)
 
 Brief(d) == IF d.kind = "ok" THEN [kind |-> "ok", file |-> d.file, rules |-> d.rules]
@@ -41,8 +45,10 @@ Brief(d) == IF d.kind = "ok" THEN [kind |-> "ok", file |-> d.file, rules |-> d.r
 
 \* judge one recorded evaluation against the specification; prints the verdict, always TRUE
 Judge(line) ==
-  LET d0 == Denote(line.prog, line.doc, {}) IN
-  IF Agrees(line.obs, d0)
+  LET d0 == Den(line, {}) IN
+  IF d0.kind = "err" /\ d0.e = "unknown"
+  THEN PrintT(<<"JUDGE", line.i, "unknown", line.obs.kind>>)   \* outside what the specification computes
+  ELSE IF Agrees(line.obs, d0)
   THEN PrintT(<<"JUDGE", line.i, "ok", d0.kind>>)
   ELSE LET j == FirstDev(line, 1) IN
        IF j > 0
